@@ -987,6 +987,8 @@ func rule017(r *core.Run) {
 				why = "deferred Close"
 			case strings.HasSuffix(name, ".Close") && g.Parent() != nil:
 				why = "Close inside a deferred cleanup closure"
+			case strings.HasSuffix(name, ".Close") && c.Common().IsInvoke() && openedReadOnly(r, c.Common().Value, 0):
+				why = "Close of a handle opened read-only (Fs.Open): nothing is flushed"
 			case strings.HasSuffix(name, ".Close") && closeOnErrorPath(r, in):
 				why = "Close on a path that already returns an error"
 			case strings.HasSuffix(name, "Fs.Remove") && isDefer && fname(r, g) == "s3afero.modTimeResolution":
@@ -1000,6 +1002,35 @@ func rule017(r *core.Run) {
 		})
 	}
 	r.Floor("R01.7", 60, "storage calls with an error result")
+}
+
+// openedReadOnly: the handle is the result of Fs.Open (on every incoming edge).
+func openedReadOnly(r *core.Run, v ssa.Value, d int) bool {
+	if d > 4 {
+		return false
+	}
+	switch x := v.(type) {
+	case *ssa.Extract:
+		if c, ok := x.Tuple.(ssa.CallInstruction); ok && x.Index == 0 {
+			return strings.HasSuffix(r.P.CalleeName(c), "afero.Fs.Open")
+		}
+	case *ssa.Phi:
+		for _, e := range x.Edges {
+			if !openedReadOnly(r, e, d+1) {
+				return false
+			}
+		}
+		return len(x.Edges) > 0
+	case *ssa.UnOp:
+		if lv := core.BlockLocalLoad(x); lv != ssa.Value(x) {
+			return openedReadOnly(r, lv, d+1)
+		}
+	case *ssa.MakeInterface:
+		return openedReadOnly(r, x.X, d+1)
+	case *ssa.ChangeInterface:
+		return openedReadOnly(r, x.X, d+1)
+	}
+	return false
 }
 
 func closeOnErrorPath(r *core.Run, in ssa.Instruction) bool {
@@ -1070,7 +1101,7 @@ func rule019(r *core.Run) {
 					if cd.Neg {
 						notFound = !notFound
 					}
-					if notFound && sameMapValue(lk.X, m) && lk.Index == k {
+					if notFound && lk.Index == k && (sameMapValue(lk.X, m) || copiedInto(m, lk.X)) {
 						guarded = true
 					}
 				}
@@ -1086,6 +1117,10 @@ func rule019(r *core.Run) {
 						if nx, ok := kx.Tuple.(*ssa.Next); ok {
 							if rg, ok := nx.Iter.(*ssa.Range); ok {
 								src := rg.X
+								if c, isCall := src.(*ssa.Call); isCall && r.P.CalleeName(c) == "gofakes3.metadataHeaders" {
+									r.Held("R01.9", key0, pos(r, in), "copies the request's own metadata into a fresh map")
+									return
+								}
 								if unwrapParamMap(src, f) {
 									r.Held("R01.9", key0, pos(r, in), "copies the request's own metadata into a fresh map")
 									return
@@ -1099,6 +1134,50 @@ func rule019(r *core.Run) {
 		}
 	}
 	r.Floor("R01.9", 2, "metadata map writes outside metadataHeaders")
+}
+
+// copiedInto: m is a fresh map that receives every entry of src unchanged (a
+// `for k, v := range src { m[k] = v }` with nothing but the copy in the
+// loop's way): a key absent from src is absent from the copy at that point.
+func copiedInto(m, src ssa.Value) bool {
+	mk, ok := m.(*ssa.MakeMap)
+	if !ok || mk.Referrers() == nil {
+		return false
+	}
+	for _, u := range *mk.Referrers() {
+		mu, ok := u.(*ssa.MapUpdate)
+		if !ok || mu.Map != ssa.Value(mk) {
+			continue
+		}
+		kx, ok1 := mu.Key.(*ssa.Extract)
+		vx, ok2 := mu.Value.(*ssa.Extract)
+		if !ok1 || !ok2 || kx.Tuple != vx.Tuple || kx.Index != 1 || vx.Index != 2 {
+			continue
+		}
+		nx, ok := kx.Tuple.(*ssa.Next)
+		if !ok {
+			continue
+		}
+		rg, ok := nx.Iter.(*ssa.Range)
+		if !ok || !sameMapValue(rg.X, src) {
+			continue
+		}
+		// unconditional inside the loop: the only guard is the loop's own "more entries" test
+		plain := true
+		for _, g := range core.GuardsOf(mu) {
+			if !core.Dominates(nx, g.If) {
+				continue // a guard in front of the loop
+			}
+			cd := core.CondOf(g.If.Cond)
+			if ex, isEx := cd.X.(*ssa.Extract); !isEx || ex.Tuple != ssa.Value(nx) || ex.Index != 0 {
+				plain = false
+			}
+		}
+		if plain {
+			return true
+		}
+	}
+	return false
 }
 
 func sameMapValue(a, b ssa.Value) bool {
